@@ -206,6 +206,17 @@ PrevOf(r, ep, j) ==
   THEN [P EXCEPT !.el[n].pos = L.angular_position, !.el[n].spd = L.angular_speed, !.el[n].acc = L.angular_acceleration]
   ELSE P
 
+(* ---- further external torques, on gears that are not the last element: such an element's load torque is its own load
+        function's value (it REPLACES what is reflected up from downstream - implementation-shaped), elements upstream of it
+        reflect that value ---- *)
+ExtraLoads == IF "extra_loads" \in DOMAIN Tr THEN Tr.extra_loads ELSE <<>>
+ExtraEls == { ExtraLoads[x].el : x \in 1..Len(ExtraLoads) }
+ExtraLoadFails(X) ==
+  Failing({ LET e == ExtraLoads[x]  ld == [c0 |-> e.ld.c0, c1 |-> e.ld.c1, c2 |-> e.ld.c2, c3 |-> e.ld.c3, ts |-> "0", cs |-> "0"] IN
+            <<"LoadFunctionAt@" \o ToString(e.el),
+              Cl(X.el[e.el].Tl, LoadFn(ld, X.t, X.el[e.el].pos, X.el[e.el].spd), Eps, LoadScale(ld, X.t, X.el[e.el].pos, X.el[e.el].spd))>>
+          : x \in 1..Len(ExtraLoads) })
+
 (* ---- one recorded instant ---- *)
 \* P: previous instant or "none"; returns the failing clauses under the hypothesis `held'
 InstFails(r, ep, j, held) ==
@@ -218,7 +229,8 @@ InstFails(r, ep, j, held) ==
   IF ~CoreNums(X) \/ (hasPrev /\ ~CoreNums(P)) \/ ~RIsNum(pwmF) THEN {"NonFiniteSample"}
   ELSE GridFails(r, ep, j)
        \cup CoupledFails(Ch, X, Eps)
-       \cup (TorqueFails(Ch, LdOf, X, Eps) \ (IF LoadLogged THEN {"LoadFunction"} ELSE {}))
+       \cup (TorqueFails(Ch, LdOf, X, Eps) \ ((IF LoadLogged THEN {"LoadFunction"} ELSE {}) \cup { "LoadUp@" \o ToString(i) : i \in ExtraEls }))
+       \cup ExtraLoadFails(X)
        \cup LoggedLoadFails(r, X, j)
        \cup DynFails(Ch, X, held, Eps)
        \cup (IF hasPrev THEN StepFails(Ch, P, X, dt, held, Eps)
